@@ -264,3 +264,94 @@ theorem c11_datapoint_contiguous (crit : Nat) (tr : List (Nat × Ev)) (r inv dps
 example : (0, Ev.record 1 2) ∈ [(1, Ev.start 1), (0, Ev.record 1 2), (1, Ev.record 1 1)] := by decide
 
 end RB.Sched
+
+namespace RB.Sched
+
+/-! ### every run is handed to exactly one worker -/
+
+/-- one `acquire_work`: the chunk is not empty and chunk and remainder together
+are exactly the list before (the chunk is its reversed tail) -/
+theorem c11_acquire_partition (threads : Nat) (rem c rest : List Nat) (h : acquire threads rem = some (c, rest)) :
+    c ≠ [] ∧ rest ++ c.reverse = rem ∧ rest.length < rem.length := by
+  unfold acquire at h
+  split at h
+  · exact absurd h (by simp)
+  · rename_i hne
+    simp only [Option.some.injEq, Prod.mk.injEq] at h
+    obtain ⟨hc, hr⟩ := h
+    have hlen : rem.length > 0 := List.length_pos_iff.mpr hne
+    have hnum : perThread threads rem.length ≥ 1 := by unfold perThread; omega
+    subst hc; subst hr
+    refine ⟨?_, by simp, ?_⟩
+    · intro e
+      have := congrArg List.length e
+      simp at this
+      omega
+    · simp; omega
+
+/-- all successive `acquire_work` calls together hand out every run of the
+shared list exactly as often as it occurs there — i.e. (the runs of a session
+being distinct) every run goes to exactly one worker — and no chunk is empty -/
+theorem c11_chunks_partition (threads : Nat) (rem : List Nat) :
+    (chunks threads rem).flatten.Perm rem ∧ ∀ c ∈ chunks threads rem, c ≠ [] := by
+  unfold chunks
+  have gen : ∀ fuel rem, rem.length ≤ fuel →
+      (chunksAux threads fuel rem).flatten.Perm rem ∧ ∀ c ∈ chunksAux threads fuel rem, c ≠ [] := by
+    intro fuel
+    induction fuel with
+    | zero =>
+      intro rem h
+      have : rem = [] := List.eq_nil_of_length_eq_zero (by omega)
+      subst this; simp [chunksAux]
+    | succ fuel ih =>
+      intro rem h
+      unfold chunksAux
+      cases ha : acquire threads rem with
+      | none =>
+        have : rem = [] := by
+          unfold acquire at ha
+          split at ha
+          · assumption
+          · simp at ha
+        subst this; simp
+      | some p =>
+        obtain ⟨c, rest⟩ := p
+        obtain ⟨h1, h2, h3⟩ := c11_acquire_partition threads rem c rest ha
+        obtain ⟨i1, i2⟩ := ih rest (by omega)
+        simp only [List.flatten_cons, List.mem_cons]
+        refine ⟨?_, ?_⟩
+        · have : (c ++ (chunksAux threads fuel rest).flatten).Perm (c.reverse ++ rest) :=
+            List.Perm.append (List.reverse_perm c).symm i1
+          rw [← h2]
+          exact this.trans List.perm_append_comm
+        · intro x hx
+          rcases hx with hx | hx
+          · rw [hx]; exact h1
+          · exact i2 x hx
+  exact gen rem.length rem (Nat.le_refl _)
+
+theorem c11_each_run_in_one_chunk (threads : Nat) (rem : List Nat) (r : Nat) :
+    (chunks threads rem).flatten.count r = rem.count r :=
+  (c11_chunks_partition threads rem).1.count_eq r
+
+/-- FULL STATEMENT (false of the pinned tree): whenever the parallel scheduler
+is chosen (more than one core) every run of the shared list is handed to a
+worker. Witness: two cores give `floor(2 / 2.5) = 0` worker threads, so no
+non-exclusive run is ever executed. -/
+theorem c11_every_run_handed_out_pinned_full_fails :
+    ¬ (∀ (cpu : Nat) (rem : List Nat), cpu > 1 → (handout (numThreadsPinned cpu) rem).flatten.Perm rem) := by
+  intro h
+  have := (h 2 [0, 1] (by decide)).length_eq
+  revert this
+  decide
+
+/-- repaired (at least one worker thread): every run is handed to exactly one worker -/
+theorem c11_every_run_handed_out (cpu : Nat) (rem : List Nat) :
+    (handout (numThreads cpu) rem).flatten.Perm rem ∧ ∀ c ∈ handout (numThreads cpu) rem, c ≠ [] := by
+  have hpos : numThreads cpu ≠ 0 := by unfold numThreads; omega
+  simp only [handout, hpos, if_false]
+  exact c11_chunks_partition _ rem
+
+example : handout (numThreads 8) [0, 1, 2, 3, 4, 5, 6] = [[6, 5], [4], [3], [2], [1], [0]] := by decide
+
+end RB.Sched
